@@ -349,6 +349,37 @@ fn boundary_probes(m: &Model) -> BTreeSet<u128> {
     ] {
         add(d);
     }
+    // truncation aliases: values which equal a member (or a run boundary) modulo a narrower width
+    for w in [8u32, 16, 32, 64] {
+        if w >= m.rbits {
+            continue;
+        }
+        let step = 1i128 << w;
+        let mut marks: Vec<D> = vec![m.min(), m.max()];
+        for (b, e) in m.runs.iter().take(6) {
+            marks.push(*b);
+            marks.push(*e);
+        }
+        for d in marks {
+            for k in [-2i128, -1, 1, 2] {
+                if let Some(x) = step.checked_mul(k).and_then(|s| d.checked_add(s)) {
+                    add(x);
+                    add(x + 1);
+                    add(x - 1);
+                }
+            }
+        }
+    }
+    if m.rbits == 128 {
+        add(D::MAX);
+        add(D::MAX - 1);
+        add(D::MIN);
+        add(D::MIN + 1);
+        add(1i128 << 64);
+        add(-(1i128 << 64));
+        add((1i128 << 64) + m.min());
+        add(m.max() - (1i128 << 64));
+    }
     if m.rbits == 128 && !m.rsigned {
         // patterns above i128::MAX exist only for u128
         out.insert(u128::MAX);
